@@ -12,7 +12,9 @@
     proof/C03_Spec.v: [mol_of_host] (the substrate as a molecule graph), [lift o] = (o, o, 0) (an unchanged bond),
     [bondG] (reactant-side bond of an ITS), [dH] / [dQ] (product-minus-reactant hydrogen count / charge of an ITS
     node), [sumZ] (sum over nodes), [balancedb], [count_el], [total_hc], [total_charge], [elem_count] (atoms of an
-    element plus, for hydrogen, the implicit hydrogens). *)
+    element plus, for hydrogen, the implicit hydrogens), [changed_bonds] / [image_changed_bonds] (clause (c) as sets),
+    [edges_closedb], [default_rc], [same_core] / [keepn] / [keepe] (default-mode rule preparation), [new_edges] /
+    [new_nodes] / [occurrences] / [pairs_okb] (_explicit_h). *)
 From Coq Require Import List NArith ZArith Bool Permutation.
 From SK Require Import lib.Tok lib.LGraph model.C03_Model proof.C03_Spec proof.C03_Proof proof.C03_Glue proof.C03_Backward
                        proof.C03_ExplicitH proof.C03_ExplicitShape proof.C03_ExplicitTotal proof.C03_Expand
